@@ -108,3 +108,24 @@ Section NoHang.
     cbn [step]. destruct (st_txns s id) as [t|]; [destruct (t_discarded t)|]; rewrite ?Hlt; cbn; discriminate.
   Qed.
 End NoHang.
+
+(** * The first commit after a reopen (C37-F2) *)
+Lemma commit_after_open_sentinel : commit_after_open sentinel_version = RcFatal.
+Proof. vm_compute. reflexivity. Qed.
+
+Lemma commit_after_open_below_sentinel m :
+  m < sentinel_version -> exists ts, commit_after_open m = RcCommits ts /\ m < ts.
+Proof.
+  intros Hm. unfold commit_after_open, next_after_open. unfold sentinel_version, two64 in Hm.
+  destruct (m =? 0) eqn:E0.
+  - apply N.eqb_eq in E0. subst m. exists 1. split; [reflexivity | lia].
+  - apply N.eqb_neq in E0. rewrite N.mod_small by (unfold two64; lia).
+    replace (m <=? m + 1) with true by (symmetry; apply N.leb_le; lia).
+    exists (m + 1). split; [reflexivity | lia].
+Qed.
+
+Example commit_after_open_hypothesis_satisfiable : 5 < sentinel_version /\ commit_after_open 5 = RcCommits 6.
+Proof. split; [vm_compute; reflexivity | vm_compute; reflexivity]. Qed.
+
+Lemma commit_after_open_refuted : exists m, m < two64 /\ commit_after_open m = RcFatal.
+Proof. exists sentinel_version. split; [reflexivity | exact commit_after_open_sentinel]. Qed.
